@@ -434,7 +434,7 @@ func c16JoinSQL(c Case, arity int, sel, tail string) string {
 }
 
 func c16SQL(c Case, arity int) [][][]string {
-	s := streamsql.New(streamsql.WithDiscardLog())
+	s := streamsql.New(presetOpt(), streamsql.WithDiscardLog())
 	defer s.Stop()
 	sql := c16JoinSQL(c, arity, "id, m.pid AS pid", "")
 	if err := s.Execute(sql); err != nil {
@@ -541,7 +541,7 @@ func c16NestKeys(row map[string]interface{}, arity int) {
 
 func c16SQLAgg(c Case, arity int) [][][]string {
 	n, _ := strconv.Atoi(c04CfgVal(c, "n", "1"))
-	s := streamsql.New(streamsql.WithDiscardLog())
+	s := streamsql.New(presetOpt(), streamsql.WithDiscardLog())
 	defer s.Stop()
 	sql := c16JoinSQL(c, arity, "m.grp AS grp, count(*) AS c, collect(id) AS ids", fmt.Sprintf(" GROUP BY m.grp, CountingWindow(%d)", n))
 	if err := s.Execute(sql); err != nil {
@@ -625,7 +625,7 @@ func c16SQLAgg(c Case, arity int) [][][]string {
 // Every Upsert returns before the next begins, so under every schedule the pids read are non-decreasing, and the
 // read after the updater has finished sees n. The verdict does not depend on timing.
 func c16Conc(n int) [][]string {
-	s := streamsql.New(streamsql.WithDiscardLog())
+	s := streamsql.New(presetOpt(), streamsql.WithDiscardLog())
 	defer s.Stop()
 	if err := s.Execute("SELECT id, m.pid AS pid FROM stream LEFT JOIN meta m ON k0 = m.t0"); err != nil {
 		return [][]string{{"exec-error", hx(err.Error())}}
